@@ -630,7 +630,7 @@ class Unit:
             body = "{ unimplemented!() }"
             prefix = prefix + "#[verifier::external_body]\n    "
             loops, proofs = None, None
-            self.stubbed[key] = {"reason": stub_reason[:400], "props": list(props or [])}
+            self.stubbed[key] = {"reason": stub_reason[:400], "props": list(props or []), "fname": rename or name}
         for hr in header_rules:
             ctx = Ctx(self, key)
             header = hr(header, ctx)
@@ -667,7 +667,7 @@ class Unit:
             self.expected.append(rename or name)
         return text
 
-    def arm(self, path, block, fn_name, pattern, new_name, params, spec=None, rules=(), proofs=None, loops=None, props=None, key=None, vpath=None, ret_ty=""):
+    def arm(self, path, block, fn_name, pattern, new_name, params, spec=None, rules=(), proofs=None, loops=None, props=None, key=None, vpath=None, ret_ty="", prefix0=""):
         """R-arm: extract ONE match arm of fn `fn_name` (the arm whose pattern text is `pattern`) and wrap its block as a
         function `new_name(params)` whose parameters are the pattern bindings + the enclosing function's parameters.
         The other arms are not claimed by this unit."""
@@ -697,12 +697,12 @@ class Unit:
         except (LostAnchor, Unsupported) as e:
             stub_reason = stub_reason or ("%s: %s" % (type(e).__name__, e))
         header, body = fn_split(text)
-        prefix = ""
+        prefix = prefix0
         if stub_reason:
             body = "{ unimplemented!() }"
             prefix = "#[verifier::external_body]\n    "
             loops, proofs = None, None
-            self.stubbed[key] = {"reason": stub_reason[:400], "props": list(props or [])}
+            self.stubbed[key] = {"reason": stub_reason[:400], "props": list(props or []), "fname": new_name}
         self._gid = getattr(self, "_gid", 0) + 1
         line = src.count("\n", 0, it.start + i) + 1
         meta = {"kind": "code", "key": key, "props": props or [], "src": path, "src_line": line, "gid": self._gid, "fname": new_name, "canary_ok": bool(spec) and not stub_reason}
